@@ -553,6 +553,11 @@ func sites(b *Base) []Site {
 		if v == 6 && b.QPair {
 			continue // a QDep exists: the post-processor's point is satisfiable
 		}
+		if v == 4 || v == 5 {
+			// fixed-size arrays are outside what the statement covers (a container may refuse or fill them): only the
+			// optional array point of cfg-a stays in the scenarios - whatever happens to it, Run neither panics nor fails
+			continue
+		}
 		out = append(out, Site{Kind: "unsat-uninjectable", A: v})
 	}
 	for j := 0; j < b.Loaders; j++ {
